@@ -304,3 +304,39 @@ package types
 //@ func NewCoins
 //@   trusted constructor (sorts, validates); result not constrained here
 //@   pure_fn
+
+// ---- C42: transaction indexer ------------------------------------------------------------
+//@ func endKey
+//@   trusted string formatting (bytes.Split/Join, ELEN encoding of MaxInt64): the upper bound of the prefix range
+//@   pure_fn
+//@   ensures result != nil
+
+// the requested direction selects the direction of the database iterator over the prefix range
+//@ func PrefixIterator
+//@   props C42
+//@   modifies itPos, itN, itKey, itVal, itStore, itLo, itHi, itHiNil, itRev, lastOpened
+//@   ensures [asc-forward] order == "asc" && result1 == nil ==> result0 != nil && !itRev[result0] && itLo[result0] == bytes(prefix) && itStore[result0] == db && lastOpened == result0 && itPos[result0] == 0 && itN[result0] >= 0
+//@   ensures [desc-reverse] order == "desc" && result1 == nil ==> result0 != nil && itRev[result0] && itLo[result0] == bytes(prefix) && itStore[result0] == db && lastOpened == result0 && itPos[result0] == 0 && itN[result0] >= 0
+//@   ensures [other-error] order != "asc" && order != "desc" ==> result1 != nil && result0 == nil
+
+// stored result of a transaction hash (store read + codec decode are outside the technique)
+//@ pure txOf(h Bytes) int
+//@ func (*TransactionIndexer).Get
+//@   trusted store read + amino decode: the stored result is a function of the hash
+//@   pure_fn
+//@   ensures result1 == nil ==> ref(result0) == txOf(bytes(hash))
+
+// Pagination: total = number of items the iterator yields; the page is items [Skip, Skip+Size)
+// of the iteration order, each looked up by the hash stored as the index value.
+//@ func (*TransactionIndexer).getByPrefix
+//@   props C42
+//@   requires pagination != nil && pagination.Skip >= 0 && pagination.Size >= 0
+//@   modifies all
+//@   ensures [total] err == nil ==> total == itN[lastOpened]
+//@   ensures [page-len] err == nil ==> len(res) == min(pagination.Size, max(0, itN[lastOpened] - pagination.Skip))
+//@   ensures [page-items] err == nil ==> forall j int :: 0 <= j && j < len(res) ==> ref(res[j]) == txOf(itVal[lastOpened][pagination.Skip + j])
+//@   ensures [error] err != nil ==> res == nil && total == 0
+//@   loop 0 invariant it != nil && it == lastOpened && 0 <= itPos[it] && itPos[it] <= itN[it] && itN[it] == old(0) + itN[it]
+//@   loop 0 invariant total == itPos[it] && skipCount == min(itPos[it], pagination.Skip) && i == itPos[it] - skipCount
+//@   loop 0 invariant len(res) == min(i, pagination.Size) && pagination.Skip >= 0 && pagination.Size >= 0
+//@   loop 0 invariant forall j int :: 0 <= j && j < len(res) ==> ref(res[j]) == txOf(itVal[it][pagination.Skip + j])
